@@ -9,6 +9,6 @@ rsync -a --exclude .git /repo/ "$tmp/repo/"
 if ! (cd "$tmp/repo" && patch -p1 -s --no-backup-if-mismatch < "$patch"); then echo "PATCH-FAILED $patch"; exit 3; fi
 mkdir -p "$tmp/verif/evidence"; ln -s /verif/spec "$tmp/verif/spec"; ln -s /verif/known_findings.json "$tmp/verif/known_findings.json"
 for p in "$@"; do
-  out=$(GOFLAGS=-mod=mod GOPROXY=off GOSUMDB=off GOTOOLCHAIN=local GOWORK=off /verif/bin/bmcheck -prop "$p" -tier "${TIER:-quick}" -repo "$tmp/repo" -verif "$tmp/verif" 2>&1); rc=$?
+  out=$(GOFLAGS=-mod=mod GOPROXY=off GOSUMDB=off GOTOOLCHAIN=local GOWORK=off ${BMCHECK:-/verif/bin/bmcheck} -prop "$p" -tier "${TIER:-quick}" -repo "$tmp/repo" -verif "$tmp/verif" 2>&1); rc=$?
   if [ $rc -eq 0 ]; then echo "== $p: PASS (mutant NOT detected)"; else echo "== $p: DETECTED rc=$rc"; echo "$out" | grep -E "VIOLATED|UNDECIDED|why:|witness" | head -${LINES_MAX:-12}; fi
 done
